@@ -225,6 +225,62 @@ fn queue_case(cx: &mut Ctx, cap: usize, variant: u64, ops: &[i64], force: bool) 
 }
 
 // ---------------------------------------------------------------------------------------------
+// cell: one queue hammered by real threads (S-only): the owner pushes / pops / balances, thieves steal
+// ---------------------------------------------------------------------------------------------
+fn queue_threads_case(cx: &mut Ctx, cap: usize, thieves: usize, codes: &[i64], balance_every: usize) {
+    let cell = "WorkStealingQueue/threads";
+    let case = json!({"cell": "qthreads", "kind": 15, "cap": cap, "thieves": thieves, "balance_every": balance_every, "ops": codes});
+    cx.sum.eval(cell, &format!("qt {} {} {} {:?}", cap, thieves, balance_every, codes), codes.len() >= 2);
+    cx.sum.cell_status(cell, "S-only");
+    let n = codes.len();
+    let counters: Arc<Vec<AtomicU32>> = Arc::new((0..n + 1).map(|_| AtomicU32::new(0)).collect());
+    let cv = codes.to_vec();
+    let r = guarded(|| {
+        let q = Arc::new(WorkStealingQueue::new(0, cap));
+        let stop = Arc::new(std::sync::atomic::AtomicBool::new(false));
+        let mut hs = vec![];
+        for _ in 0..thieves {
+            let q = q.clone();
+            let stop = stop.clone();
+            hs.push(std::thread::spawn(move || {
+                let mut got: Vec<i64> = vec![];
+                loop {
+                    match q.steal() { Some(t) => got.push(task_id(&t)), None => { if stop.load(Ordering::SeqCst) { break; } std::thread::yield_now(); } }
+                }
+                got
+            }));
+        }
+        let mut accepted = vec![false; n];
+        let mut owner: Vec<i64> = vec![];
+        for (i, &c) in cv.iter().enumerate() {
+            accepted[i] = q.push_local(mk_task(i, c, &counters)).is_ok();
+            if balance_every > 0 && i % balance_every == balance_every - 1 { q.balance(); }
+            if i % 3 == 2 { if let Some(t) = q.pop_local() { owner.push(task_id(&t)); } }
+        }
+        // the owner drains what is left for it, then the thieves are told to finish
+        while let Some(t) = q.pop_local() { owner.push(task_id(&t)); }
+        stop.store(true, Ordering::SeqCst);
+        let mut all = owner;
+        for h in hs { all.extend(h.join().unwrap_or_default()); }
+        while let Some(t) = q.steal() { all.push(task_id(&t)); }
+        while let Some(t) = q.pop_local() { all.push(task_id(&t)); }
+        (accepted, all, q.len())
+    });
+    match r {
+        Err(p) => cx.sum.fail(cell, None, case, &format!("panicked: {}", p)),
+        Ok((accepted, all, left)) => {
+            let mut seen = vec![0u32; n];
+            let mut unknown = 0;
+            for id in all { if id >= 0 && (id as usize) < n { seen[id as usize] += 1; } else { unknown += 1; } }
+            let bad: Vec<usize> = (0..n).filter(|&i| (accepted[i] && seen[i] != 1) || (!accepted[i] && seen[i] != 0)).collect();
+            if !bad.is_empty() || unknown > 0 || left != 0 {
+                cx.sum.fail(cell, None, case, &format!("tasks {:?} did not come out exactly once (unknown ids {}, final len {})", &bad[..bad.len().min(8)], unknown, left));
+            }
+        }
+    }
+}
+
+// ---------------------------------------------------------------------------------------------
 // cell: the running executor (S-only) + submit history (M+S when deterministic)
 // ---------------------------------------------------------------------------------------------
 
@@ -935,6 +991,10 @@ fn run_one(cx: &mut Ctx, c: &Value) {
             let ops: Vec<i64> = ops.into_iter().filter(|&o| (1..=4).contains(&o) || is_task_code(o)).collect();
             queue_case(cx, u(&c["cap"], 8) as usize, u(&c["variant"], 0), &ops, true)
         }
+        "qthreads" => {
+            let ops: Vec<i64> = ops.into_iter().filter(|&o| is_task_code(o)).collect();
+            queue_threads_case(cx, u(&c["cap"], 8) as usize, u(&c["thieves"], 2).max(1) as usize, &ops, u(&c["balance_every"], 4) as usize)
+        }
         "executor" => {
             let ops: Vec<i64> = ops.into_iter().filter(|&o| is_task_code(o)).collect();
             exec_case(cx, u(&c["nw"], 1).max(1) as usize, u(&c["cap"], 8) as usize, u(&c["rt"], 0) as usize, u(&c["mode"], 0), &ops, true)
@@ -1043,6 +1103,22 @@ pub fn run(args: &Args) {
             cx.rng = r;
             if k < 3 { cx.sum.sample(json!({"cell": "WorkStealingQueue", "cap": cap, "ops": ops})); }
             queue_case(&mut cx, cap, variant, &ops, false);
+        }
+    }
+
+    // 2b. one queue under real threads
+    {
+        let nq = if thorough { 400 } else { 40 };
+        for _ in 0..nq {
+            let mut r = cx.rng.clone();
+            let cap = *r.pick(&[1usize, 2, 4, 8, 64, 1024]);
+            let thieves = *r.pick(&[1usize, 2, 3]);
+            let n = r.range(2, 600) as usize;
+            let prio_mix = r.below(4);
+            let codes: Vec<i64> = (0..n).map(|_| rand_code(&mut r, prio_mix, false)).collect();
+            let be = *r.pick(&[0usize, 1, 2, 5, 16]);
+            cx.rng = r;
+            queue_threads_case(&mut cx, cap, thieves, &codes, be);
         }
     }
 
